@@ -441,6 +441,8 @@ def explore(ctx, scale=1):
         add("reasm.wrap", g.rand_case(rng, wrap=True), "wrap")
     for _ in range(ctx.n(600, 8000) * scale):       # first data segment overtaken
         add("reasm.first-segment", g.rand_case(rng, first_move=True, dups=rng.random() < 0.3), "first")
+    for _ in range(ctx.n(60, 800) * scale):         # duplicates captured ≥ 64 segments after the original
+        add("reasm.late-duplicates", g.late_dup_case(rng), "latedup")
     for case in malformed_cases(ctx, ctx.n(1500, 20000) * scale):
         add("reasm.malformed", case, "malformed", malformed=True)
 
